@@ -9,6 +9,7 @@
    interleaving of the connections' process and consumer goroutines, the objects' mailbox
    goroutines and the closers. *)
 From QV Require Import Signals Hostile HostileProofs.
+From QV Require Auth AuthStateless.
 Local Open Scope N_scope.
 
 (* no Deadlock / blocked-for-ever state is reachable: every object's goroutine is idle between two
@@ -49,6 +50,37 @@ Theorem C12_removed_only_by_terminate : forall cls g st l st' o x x',
                  cls (o_kind x) (f_act f) (f_pl f) = PArgs oid sg u /\ oid_ok x oid = true.
 Proof. exact c12_removed_only_by_terminate. Qed.
 Print Assumptions C12_removed_only_by_terminate.
+
+(* service 0 itself (model theories/Auth.v, shared with C06; proofs theories/AuthStateless.v): a fresh
+   client is served only if it can first AUTHENTICATE.  The mailbox goroutine of service 0 keeps no
+   state between two mails: its answer to the mail at the head of its mailbox is the same in any
+   two states that agree on that mail and on "its connection is closed" — whatever any client sent
+   before, for every authenticator ... *)
+Theorem C12_service0_stateless : forall skip fp auth eo st st' c f q q',
+  Auth.s_mbox st = (c, f) :: q -> Auth.s_mbox st' = (c, f) :: q' ->
+  Auth.c_closed (Auth.get st c) = Auth.c_closed (Auth.get st' c) ->
+  snd (Auth.step skip fp auth eo st Auth.LMbox) = snd (Auth.step skip fp auth eo st' Auth.LMbox).
+Proof. exact AuthStateless.mbox_answer_stateless. Qed.
+Print Assumptions C12_service0_stateless.
+
+(* ... and from EVERY state (reachable or not) in which service 0's mailbox is within its capacity,
+   an open connection with nothing queued that sends an authenticate request carrying accepted
+   credentials is answered "done" and becomes authenticated after
+     LArrive; LConn; one LMbox per mail that was already queued (mails of other connections); LMbox
+   i.e. at most queue_cap + 3 steps of its own two goroutines and of service 0's goroutine *)
+Theorem C12_fresh_client_authenticates : forall skip fp auth eo st c f m r u t,
+  Auth.c_closed (Auth.get st c) = false -> Auth.c_dead (Auth.get st c) = false -> Auth.c_inq (Auth.get st c) = [] ->
+  (List.length (Auth.s_mbox st) <= Auth.queue_cap)%nat -> (forall e, In e (Auth.s_mbox st) -> fst e <> c) ->
+  Auth.type_ok (Auth.f_type f) = true -> fp (Auth.f_type f) = true ->
+  Auth.f_svc f = 0 -> Auth.f_obj f = 0 -> Auth.f_act f = Auth.AuthenticateActionID ->
+  Auth.dec_capmap skip (Auth.f_payload f) = Auth.DOk m r -> Auth.creds m = Some (u, t) -> auth u t = true ->
+  let st' := Auth.exec skip fp auth eo st
+               (Auth.LArrive c f :: Auth.LConn c :: AuthStateless.mboxes (List.length (Auth.s_mbox st))) in
+  snd (Auth.step skip fp auth eo st' Auth.LMbox) =
+    [Auth.OAuthCall u t true; Auth.OFrame c Message.T_Reply 0 0 Auth.AuthenticateActionID (Auth.f_id f) Auth.BAuthDone] /\
+  Auth.c_authed (Auth.get (fst (Auth.step skip fp auth eo st' Auth.LMbox)) c) = true.
+Proof. exact AuthStateless.fresh_client_authenticates. Qed.
+Print Assumptions C12_fresh_client_authenticates.
 
 (* the pinned tree: a second registerEvent with a known id kills the object's goroutine ... *)
 Theorem C12_refuted_dup_relock :
